@@ -220,6 +220,80 @@ Proof.
 Qed.
 
 (* ------------------------------------------------------------------------------------------ *)
+(** * arbitrary clause lists and region semantics (regions with calls: the semantics of a call is whatever
+      statement list the callee amounts to; the clauses are whatever was generated) *)
+
+Lemma cl_from_copyout cin cout cpy x :
+  copied_out (cl_from cin cout cpy) x = true -> copied_in (cl_from cin cout cpy) x = false -> In x cout.
+Proof.
+  unfold copied_out, copied_in, cl_from. destruct (mem x cpy); [discriminate|].
+  destruct (mem x cin); [discriminate|]. destruct (mem x cout) eqn:E; [intros _ _; apply mem_In; exact E | discriminate].
+Qed.
+
+Theorem acc_sound_gen isarr f r st st' tr c cin cout cpy :
+  exec f r st = Ok st' tr c ->
+  acc_run_ok_gen isarr cin cout cpy st tr = true ->
+  forall junk, exists st'',
+    exec_dev f isarr (cl_from cin cout cpy) junk r st = Ok st'' tr c /\
+    bnd st'' = bnd st' /\ forall l, val st'' l = val st' l.
+Proof.
+  intros H Hok junk. unfold acc_run_ok_gen in Hok. set (cl := cl_from cin cout cpy) in *.
+  apply andb_true_iff in Hok as [Hok H3]. apply andb_true_iff in Hok as [Hok H4].
+  apply andb_true_iff in Hok as [H1 H2].
+  unfold exposed_ok in H1. unfold writes_inb in H2. unfold writes_out in H4.
+  rewrite forallb_forall in H1, H2, H3, H4.
+  destruct (exec_frame f r st st' tr c (dev_init isarr cl junk st) H eq_refl) as [d [R1 [R2 [R3 R4]]]].
+  { intros l Hl. specialize (H1 l Hl). cbn [dev_init val].
+    destruct (isarr (fst l)); cbn [negb orb andb] in *; [rewrite H1; reflexivity | reflexivity]. }
+  exists (copy_back isarr cl st d). unfold exec_dev. rewrite R1.
+  split; [reflexivity|]. split; [cbn [copy_back bnd]; symmetry; apply (exec_bnd _ _ _ _ _ _ H)|].
+  intro l. cbn [copy_back val].
+  destruct (in_dec loc_eq_dec l (writes tr)) as [I|N].
+  - destruct (isarr (fst l)) eqn:Ea; [|apply R3, I].
+    specialize (H4 l I). rewrite Ea in H4. cbn [negb orb] in H4.
+    specialize (H2 l I). rewrite Ea in H2. cbn [negb orb] in H2. rewrite H4, H2. cbn [andb]. apply R3, I.
+  - assert (U : val st' l = val st l) by (apply (exec_unchanged _ _ _ _ _ _ l H N)).
+    destruct (isarr (fst l)) eqn:Ea.
+    + destruct (copied_out cl (fst l) && inb (bnd st (fst l)) (snd l)) eqn:Eo; [|symmetry; exact U].
+      apply andb_true_iff in Eo as [Co Ib]. rewrite R4 by exact N. cbn [dev_init val]. rewrite Ea. cbn [andb].
+      destruct (copied_in cl (fst l)) eqn:Ci; cbn [negb]; [symmetry; exact U|].
+      exfalso. apply N. pose proof (cl_from_copyout cin cout cpy (fst l) Co Ci) as Ic.
+      specialize (H3 (fst l) Ic). fold cl in H3. rewrite Ci in H3. cbn [orb] in H3. rewrite forallb_forall in H3.
+      specialize (H3 (snd l) (in_all_idx _ _ Ib)). apply lmem_In in H3. destruct l; exact H3.
+    + rewrite R4 by exact N. cbn [dev_init val]. rewrite Ea. cbn [andb]. symmetry; exact U.
+Qed.
+
+(* READWRITE (a by-reference argument of a non-pure call) => copy: copied in and out *)
+Lemma hasrw_of x l : In (x, READWRITE) l -> hasrw x l = true.
+Proof. intro H. unfold hasrw. apply existsb_exists. exists READWRITE. split; [apply in_of_var; exact H | reflexivity]. Qed.
+
+Theorem readwrite_is_copy isarr l x :
+  isarr x = true -> In (x, READWRITE) l -> classify isarr l x = Some Copy.
+Proof.
+  intros Ha Hr. unfold classify. rewrite Ha, (acc_in_sigs x READWRITE l Hr), (hasrw_of x l Hr). reflexivity.
+Qed.
+
+(* a(1) = 0 ; call inc(a)  with inc incrementing a(2): copy(a) is generated and the run is inside acc_run_ok_gen;
+   with copyout(a) instead (what the seeded change produces) it is not, and the host values differ *)
+Definition xs_call : list xstmt := [XCore (SAssign 0%nat [ELit 1] (ELit 0)); XCall [EVar 0%nat]].
+Definition sem_call : list stmt :=
+  [SAssign 0%nat [ELit 1] (ELit 0); SAssign 0%nat [ELit 2] (EBin Add (EIdx 0%nat [ELit 2]) (ELit 1))].
+Example call_nonvacuous :
+  let isarr := fun x => mem x [0%nat] in
+  let st := store_of [((0%nat, [2]), 7)] [(0%nat, [(1, 3)])] in
+  in_clause isarr (xaccs false xs_call) Copy = [0%nat] /\ in_clause isarr (xaccs false xs_call) CopyOut = [] /\
+  exists st' tr, exec 20 sem_call st = Ok st' tr CNormal /\
+    acc_run_ok_gen isarr [] [] [0%nat] st tr = true /\ acc_run_ok_gen isarr [] [0%nat] [] st tr = false /\
+    exists st'' tr', exec_dev 20 isarr (cl_from [] [0%nat] []) (fun _ => 99) sem_call st = Ok st'' tr' CNormal /\
+                     val st'' (0%nat, [2]) <> val st' (0%nat, [2]).
+Proof.
+  cbv zeta. split; [vm_compute; reflexivity|]. split; [vm_compute; reflexivity|].
+  eexists. eexists. split; [vm_compute; reflexivity|]. split; [vm_compute; reflexivity|].
+  split; [vm_compute; reflexivity|].
+  eexists. eexists. split; [vm_compute; reflexivity|]. vm_compute. discriminate.
+Qed.
+
+(* ------------------------------------------------------------------------------------------ *)
 (** * non-vacuity and refutations *)
 
 Definition va : name := 0%nat.  Definition vb : name := 1%nat.  Definition vc : name := 2%nat.
